@@ -377,8 +377,22 @@ def s7(prog, ctx, fns):
                     for lhs2, rhs2, st2, kind2 in query.stores(f):
                         if kind2 == "++" and render(lhs2) in stxt and cfg.node_dominates(st2, c):
                             guard_ok = True
+                if not guard_ok:
+                    # a capacity variable: set to positive constants only, otherwise only handed to getline/getdelim (which never shrink it to 0)
+                    s0 = size.strip()
+                    while s0.k in ("ImplicitCastExpr", "ParenExpr", "CStyleCastExpr") and s0.children:
+                        s0 = s0.children[0].strip()
+                    if s0.k == "DeclRefExpr" and s0.j.get("dk") == "local":
+                        v = s0.j["name"]
+                        defs = [(l2, r2) for l2, r2, st2 in f.assignments() if (l2["name"] if isinstance(l2, dict) else render(l2)) == v]
+                        consts = bool(defs) and all(r2 is not None and (r2.const_value() or 0) > 0 for l2, r2 in defs)
+                        others = [st2 for l2, r2, st2, k2 in query.stores(f) if render(l2) == v and k2 != "="]
+                        addr = [x for x in f.walk() if x.k == "UnaryOperator" and x.j.get("op") == "&" and render(x.children[0]) == v]
+                        addr_ok = all(x.up() is not None and x.up().k == "CallExpr" and x.up().j.get("callee") in ("getline", "getdelim", "__getdelim") for x in addr)
+                        if consts and not others and addr_ok:
+                            guard_ok = True
                 if guard_ok:
-                    ctx.ok("S7", inst + ": size is not zero", c.where, "`%s` behind a > 0 test / after an increment" % stxt)
+                    ctx.ok("S7", inst + ": size is not zero", c.where, "`%s` behind a > 0 test / after an increment / a capacity that starts positive" % stxt)
                 else:
                     ctx.fail("S7", inst + ": size is not zero", c.where,
                              "the new size `%s` can be zero (e.g. merging two files without entries): realloc(p, 0) frees the block and returns NULL, "
